@@ -143,8 +143,9 @@ def gen_svd(rng, dim):
 def gen_plane(rng):
     if rng.random() < 0.5:
         p1 = rv(rng, 10)
-        return {"k": "c19.plane3", "p1": p1, "p2": [x + y for x, y in zip(p1, rv(rng, rng.choice([1e-2, 1, 100])))],
-                "p3": [x + y for x, y in zip(p1, rv(rng, rng.choice([1e-2, 1, 100])))], "q": rv(rng, 20)}
+        sc = rng.choice([1e-5, 1e-3, 1e-2, 1, 100])      # the triangle's size is the user's unit: small well-shaped triangles included
+        return {"k": "c19.plane3", "p1": p1, "p2": [x + y for x, y in zip(p1, rv(rng, sc))],
+                "p3": [x + y for x, y in zip(p1, rv(rng, rng.choice([sc, sc, 1e-2, 1, 100])))], "q": rv(rng, 20)}
     return {"k": "c19.planepn", "n": rv(rng, rng.choice([1e-3, 1, 1e3])), "p": rv(rng, 10), "q": rv(rng, 20), "sp": rng.random() < 0.5}
 
 
